@@ -110,7 +110,7 @@ def run_case(seed):
     def count(k):
         dist[k] = dist.get(k, 0) + 1
 
-    pf0 = gen.gen_plotfile(rng, ndims=3, max_blocks=2, nfields=(2, 4), nlevels=rng.choice([1, 2, 2, 3]),
+    pf0 = gen.gen_plotfile(rng, ndims=3, max_blocks=2, nfields=(2, 4), nlevels=rng.choice([1, 2, 2, 3]), unicode_names=0.2,
                            payload=rng.choice(['ints', 'random']))
     pf0.fields = [f.replace(' ', '_') for f in pf0.fields]
     root = core.scratch_dir(f"c14_{seed}")
@@ -132,6 +132,7 @@ def run_case(seed):
     else:
         ops = gen_ops(rng, nops)
     count(f"length={nops}")
+    count(f"non-ASCII field names={'names:unicode' in pf0.meta['geo']}")
     states = [(pf0, p0, diskimg.image_sx(img0))]       # (pure contents, impl directory, model image sx)
     desc_ops = []
     model_ok = True
@@ -154,7 +155,7 @@ def run_case(seed):
                 variables = rng.sample(keys, k) if vk == 'perm' else sorted(rng.sample(keys, k), key=keys.index)
             limit = rng.randint(0, cur.nlevels - 1) if rng.random() < 0.4 else cur.nlevels - 1
             step = dict(op='colander', variables=variables, limit_level=limit)
-            res = core.outcome(lambda: Colander(plotfile=cur_path, limit_level=limit, output=outp, variables=list(variables)).strain())
+            res = core.outcome(lambda: core.kept_alive(Colander(plotfile=cur_path, limit_level=limit, output=outp, variables=list(variables))).strain())
             nxt = pure_colander(cur, variables, limit)
             if model_ok:
                 mres = model.call('colander', [[v.encode() for v in variables], [limit], cur_msx])
@@ -169,8 +170,8 @@ def run_case(seed):
                 f.write(src)
             kept = rng.choice([None, ' '.join(keys), ' '.join(rng.sample(keys, rng.randint(1, len(keys))))])
             step = dict(op='chef', recipe=rkind, on=[a, b], kept_fields=kept)
-            res = core.outcome(lambda: Chef(plotfile=cur_path, recipe=rpath, outfile=outp, kept_fields=kept,
-                                            serial=rng.random() < 0.5).cook())
+            res = core.outcome(lambda: core.kept_alive(Chef(plotfile=cur_path, recipe=rpath, outfile=outp, kept_fields=kept,
+                                            serial=rng.random() < 0.5)).cook())
             fn = c11.load_recipe(rpath)
             nxt, keep_ids = pure_chef(cur, fn, new_names, kept)
             if model_ok and any(c11.zeros_of_both_signs(d) for l in nxt.levels for d in l.data):
@@ -346,20 +347,20 @@ def reused_selection_case(seed):
         return bad and f"{tag}: {bad}"
     # step 1: strain the original
     o1 = os.path.join(root, 's1')
-    res = core.outcome(lambda: Colander(plotfile=p0, limit_level=None, output=o1, variables=wanted).strain())
+    res = core.outcome(lambda: core.kept_alive(Colander(plotfile=p0, limit_level=None, output=o1, variables=wanted)).strain())
     out['evals'] += 1
     bad = ('step 1 (colander) raised: ' + res[1]) if res[0] != 'ok' else check('step 1 (colander)', o1, pure_colander(pf0, order, limit))
     # step 2: cook the new field, keeping everything
     if not bad:
         o2 = os.path.join(root, 'cooked')
-        res = core.outcome(lambda: Chef(plotfile=p0, recipe=rpath, outfile=o2, kept_fields=' '.join(keys), serial=True).cook())
+        res = core.outcome(lambda: core.kept_alive(Chef(plotfile=p0, recipe=rpath, outfile=o2, kept_fields=' '.join(keys), serial=True)).cook())
         out['evals'] += 1
         cooked, _ = pure_chef(pf0, fn, [new_name], ' '.join(keys))
         bad = ('step 2 (chef) raised: ' + res[1]) if res[0] != 'ok' else check('step 2 (chef)', o2, cooked)
     # step 3: strain the cooked plotfile with the SAME list object
     if not bad:
         o3 = os.path.join(root, 's3')
-        res = core.outcome(lambda: Colander(plotfile=o2, limit_level=None, output=o3, variables=wanted).strain())
+        res = core.outcome(lambda: core.kept_alive(Colander(plotfile=o2, limit_level=None, output=o3, variables=wanted)).strain())
         out['evals'] += 1
         bad = ('step 3 (colander) raised: ' + res[1]) if res[0] != 'ok' else \
             check('step 3 (colander, same selection list as step 1)', o3, pure_colander(cooked, order, limit))
@@ -400,8 +401,8 @@ def builtin_chain_case(seed):
     desc = dict(seed=seed, case_fn='builtin_chain_case', chain=['chef ' + recipe, 'combine with the original'], kept_fields=kept_names,
                 species=species, pressure_atm=pressure, serial=serial, fields=keys, meta=pf.meta)
     cooked = os.path.join(root, 'cooked')
-    res = core.outcome(lambda: Chef(plotfile=path, recipe=recipe, outfile=cooked, species=species, mech=c11.MECH, pressure=pressure,
-                                    kept_fields=' '.join(kept_names), serial=serial).cook())
+    res = core.outcome(lambda: core.kept_alive(Chef(plotfile=path, recipe=recipe, outfile=cooked, species=species, mech=c11.MECH, pressure=pressure,
+                                    kept_fields=' '.join(kept_names), serial=serial)).cook())
     out['evals'] += 1
 
     def recipe_fn(fi, box):
